@@ -9,7 +9,7 @@ from gen import L, R, C
 from props import c01
 
 CMD_CLASSES = {"fail_not_a_command_candidate", "any_word_at_command_point", "command_candidate_beside_other_command",
-               "command_candidate_with_blank", "command_candidate"}
+               "command_candidate_with_blank", "command_candidate", "command_candidate_beside_unfinished_word"}
 
 
 def scope(d, kind):
